@@ -25,7 +25,121 @@ class C05(RecorderProp):
         case['runs'] = runs
         return case
 
+    # -- recording through the asynchronous wrapper while the service shuts it down ---------------------------------------
+    # (the wrapper applies what was requested before close and nothing after it: a recording cut in two by the close must
+    # not surface as a saved, complete recording)
+    ASYNC = {'quick': 120, 'thorough': 1500}
+
+    def generate(self, rng, tier):
+        cases = super(C05, self).generate(rng, tier)
+        for _ in range(self.ASYNC[tier]):
+            steps = [[rng.choice(['in', 'in', 'out']), rng.randint(0, 3)] for _ in range(rng.randint(1, 5))]
+            for _ in range(rng.choice([0, 1, 1, 2])):
+                steps.insert(rng.randint(0, len(steps)), ['flush'])
+            pos = rng.randint(0, len(steps) + 1)
+            if pos <= len(steps):
+                steps.insert(pos, ['close', rng.choice(['thread', 'direct'])])      # else: closed after the operation
+            cases.append({'kind': 'asyncclose', 'model': False, 'steps': steps, 'end': rng.choice(['ret', 'ret', 'raise'])})
+        return cases
+
+    def run_async_case(self, case):
+        import threading
+        from playback.tape_recorder import TapeRecorder
+        from playback.exceptions import RecordingKeyError
+        from playback.tape_cassettes.in_memory.in_memory_tape_cassette import InMemoryTapeCassette
+        from playback.tape_cassettes.asynchronous.async_record_only_tape_cassette import AsyncRecordOnlyTapeCassette
+        wrapped = InMemoryTapeCassette()
+        cassette = AsyncRecordOnlyTapeCassette(wrapped, flush_interval=3600, timeout_on_close=20)
+        cassette.start()
+        state = {'closed': False}
+
+        def close():
+            if not state['closed']:
+                state['closed'] = True
+                cassette.close()
+
+        def make(tr, live):
+            def read(self_, a):
+                return ['value', a, a * 3]
+
+            def send(self_, a):
+                return ['ack', a]
+
+            def execute(self_):
+                got = []
+                for st in case['steps']:
+                    if st[0] == 'in':
+                        got.append(self_.read(st[1]))
+                    elif st[0] == 'out':
+                        got.append(self_.send(st[1]))
+                    elif live and st[0] == 'flush':
+                        cassette._flush_recording()     # what the flusher thread does when its interval elapses
+                    elif live and st[0] == 'close':
+                        if st[1] == 'thread':
+                            t = threading.Thread(target=close)
+                            t.start()
+                            t.join()
+                        else:
+                            close()
+                if case['end'] == 'raise':
+                    raise ValueError('op')
+                return got
+            return type('AsyncOp', (object,), {'read': tr.intercept_input('read')(read), 'send': tr.intercept_output('send')(send),
+                                               'execute': tr.operation()(execute)})
+
+        def end_of(thunk):
+            try:
+                return ['ret', thunk()]
+            except Exception as ex:
+                return ['exc', type(ex).__name__]
+        tr = TapeRecorder(cassette)
+        tr.enable_recording()
+        Op = make(tr, True)
+        out = {'end': end_of(lambda: Op().execute()), 'stored': []}
+        close()
+        tr2 = TapeRecorder(wrapped)
+        Op2 = make(tr2, False)
+        for rid in list(wrapped._recordings):
+            rec = wrapped.get_recording(rid)
+            meta = rec.get_metadata()
+            try:
+                pb = tr2.play(rid, lambda recording: Op2().execute())
+                replay = ['played', sorted(o.key for o in pb.playback_outputs)]
+            except RecordingKeyError:
+                replay = ['raised', 'RecordingKeyError']
+            except Exception as ex:
+                replay = ['raised', type(ex).__name__]
+            out['stored'].append({'keys': sorted(rec.get_all_keys()), 'incomplete': meta.get(TapeRecorder.INCOMPLETE_RECORDING), 'replay': replay})
+        return out
+
+    def run_impl(self, case):
+        if case.get('kind') == 'asyncclose':
+            return self.run_async_case(case)
+        return super(C05, self).run_impl(case)
+
+    def sample_repr(self, case):
+        return case if case.get('kind') == 'asyncclose' else super(C05, self).sample_repr(case)
+
+    def features(self, case, impl):
+        if case.get('kind') == 'asyncclose':
+            return ['async-wrapper:closed-' + ('mid-operation' if any(s[0] == 'close' for s in case['steps']) else 'after-operation'),
+                    'async-wrapper:stored=%d' % len(impl['stored'])]
+        return super(C05, self).features(case, impl)
+
+    def shrink(self, case):
+        return [] if case.get('kind') == 'asyncclose' else super(C05, self).shrink(case)
+
     def oracle(self, case, impl):
+        if case.get('kind') == 'asyncclose':
+            fails = []
+            if len(impl['stored']) > 1:
+                fails.append('async wrapper: one operation left %d stored recordings' % len(impl['stored']))
+            for st in impl['stored']:
+                if st['incomplete'] is not True and st['replay'] == ['raised', 'RecordingKeyError']:
+                    fails.append('async wrapper closed at %r: a recording holding %r was stored, not flagged incomplete (%r), and its '
+                                 'replay on unchanged code raised a missing-key error'
+                                 % ([i for i, s in enumerate(case['steps']) if s[0] == 'close'], st['keys'], st['incomplete']))
+            return fails
         fails = []
         created = 0
         for i, (run, r) in enumerate(zip(case['runs'], impl)):
@@ -47,6 +161,8 @@ class C05(RecorderProp):
         return fails
 
     def nontrivial(self, case, impl):
+        if case.get('kind') == 'asyncclose':
+            return True
         return any(r.get('log') for r in impl)
 
 
